@@ -8,7 +8,7 @@ use reval::prelude::*;
 use serde_json::json;
 use std::process::Command;
 
-pub const CONSTRUCTS: [&str; 12] = [
+pub const CONSTRUCTS: [&str; 20] = [
     "unary-chain",
     "not-chain",
     "paren-nest",
@@ -21,6 +21,15 @@ pub const CONSTRUCTS: [&str; 12] = [
     "access-chain",
     "access-chain-bad-index",
     "nested-user-calls",
+    // length rather than nesting: flat texts must never exhaust the stack either
+    "long-string-escapes",
+    "long-string-raw",
+    "long-list",
+    "long-map",
+    "long-ident",
+    "long-number",
+    "long-comment-run",
+    "long-metadata",
 ];
 
 /// contexts covering every grammar production; `{}` is filled with a deep sub-expression.  These
@@ -41,7 +50,7 @@ pub fn context_text(ctx: usize, filler: &str, n: usize) -> String {
     CONTEXTS[ctx].replace("{}", &deep)
 }
 
-pub const OPS: [&str; 8] = ["parse", "rule-parse", "display", "debug", "clone", "eq", "drop", "evaluate"];
+pub const OPS: [&str; 9] = ["parse", "rule-parse", "display", "debug", "clone", "eq", "drop", "evaluate", "rule-eq"];
 
 pub fn text_for(construct: &str, n: usize) -> String {
     if let Some(rest) = construct.strip_prefix("ctx") {
@@ -72,6 +81,14 @@ pub fn text_for(construct: &str, n: usize) -> String {
         "if-else-chain" => format!("{}x", "if b then x else ".repeat(n)),
         "if-cond-chain" => format!("{}b{}", "if ".repeat(n), " then b else b".repeat(n)),
         "access-chain" => format!("m{}", ".a".repeat(n)),
+        "long-string-escapes" => format!("\"{}\"", "\\n\\u{41}\\\\".repeat(n)),
+        "long-string-raw" => format!("\"{}\"", "aé ".repeat(n)),
+        "long-list" => format!("[{}]", vec!["x"; n].join(", ")),
+        "long-map" => format!("{{{}}}", (0..n).map(|i| format!("k{i}: x")).collect::<Vec<_>>().join(", ")),
+        "long-ident" => format!("x{}", "_a1".repeat(n)),
+        "long-number" => format!("f0.{}1 + d0.{}", "0".repeat(n), "0".repeat(n.min(27))),
+        "long-comment-run" => format!("x{}+ y", " // c\n".repeat(n)),
+        "long-metadata" => format!("{}x", (0..n).map(|i| format!("@k{}: i1;\n", i % 7)).collect::<String>()),
         "access-chain-bad-index" => format!("m{}.99999999999999999999", ".a".repeat(n)),
         _ => String::from("x"),
     }
@@ -89,6 +106,18 @@ pub fn child(args: &[String]) -> ! {
             "parse" => {
                 let r = Expr::parse(&text);
                 std::mem::forget(r);
+            }
+            "rule-eq" => {
+                // two rules with the same deep expression but different names / metadata
+                let a = Rule::parse(&format!("// first\n{text}"));
+                let b = Rule::parse(&format!("// second\n@k: i1;\n{text}"));
+                if let (Ok(a), Ok(b)) = (&a, &b) {
+                    if a == b {
+                        std::process::exit(3);
+                    }
+                }
+                std::mem::forget(a);
+                std::mem::forget(b);
             }
             "rule-parse" => {
                 let r = if text.starts_with('@') { Rule::parse(&format!("// n\n{text}")) } else { Rule::parse(&format!("// n\n{text}")) };
